@@ -639,7 +639,7 @@ def to_requests(data):
     base = {'p': PID, 'node': rec['node'], 'oracle': rec['oracle']}
     return [dict(base, k='describe', steps=[{'req': s['req'], 'drv': s['drv']} for s in rec['steps']] if data.get('generated') else []),
             dict(base, k='judge', text=data['strict'], report1=data['report1'], report2=data['report2'], classes=data['classes'],
-                 steps=[{'req': s['req'], 'obs': s['obs'], 'client': s.get('client', False)} for s in rec['steps']],
+                 steps=[{'req': s['req'], 'obs': s['obs'], 'client': s.get('client')} for s in rec['steps']],
                  activates=[{'m': a['m'], 'a': a['a'], 'reply': a['reply'], 'subsChanged': a['subsChanged']}
                             for a in data['activates'] if not a['bare']],
                  dichecks=[{'m': d['m'], 'a': d['a'], 'client': d['client'], 'node': d['node']} for d in data['dichecks']],
@@ -670,21 +670,129 @@ def gen_module_props(rng, nodespec):
         for key in rng.sample(sorted(MODULE_PROP_CFG), rng.randint(1, 3)):
             ms['cfg'][key] = {'value': rng.choice(MODULE_PROP_CFG[key])}
     # configuration entries for PARAMETER properties that decide what the report says and how the node behaves:
-    # a constant given in the configuration (makes the parameter read-only), a narrower range (changes the datainfo)
+    # a constant given in the configuration (makes the parameter read-only) and DATATYPE properties (Parameter.setProperty
+    # hands every key that is not a parameter property to the datatype: limits, lengths, unit, resolution) - they change
+    # the described datainfo and the validation of the node together
+    regrid_scaled(rng, nodespec)
     for ms in nodespec['modules']:
         for layer in ms['layers']:
             for p in layer['params']:
-                if 'dt' not in p or p.get('constant') or p['attr'] in ms['cfg'] or rng.random() > 0.08:
+                if 'dt' not in p or p.get('constant') or p['attr'] in ms['cfg'] or rng.random() > 0.2:
                     continue
-                if p['dt'][0] in ('floatr', 'intr') and rng.random() < 0.5:
-                    lo, hi = p['dt'][1], p['dt'][2]
-                    ms['cfg'][p['attr']] = {'max': lo + (hi - lo) // 2 if p['dt'][0] == 'intr' else lo + (hi - lo) / 2}
+                over = gen_datatype_cfg(rng, p['dt']) if rng.random() < 0.7 else None
+                if over:
+                    ms['cfg'][p['attr']] = over
                 else:
                     try:
                         ms['cfg'][p['attr']] = {'constant': c04.mk_dtype(p['dt']).import_value(c04.gen_valid(rng, p['dt']))}
                     except Exception:
                         pass
     return nodespec
+
+
+SCALES = [0.1, 0.1, 0.01, 0.25, 1, 0.001, 0.3, 0.7, 0.05, 0.2]
+
+
+def grid_index(rng, scale, klo, khi, want=None):
+    """a grid index in klo..khi whose float quotient (k*scale)/scale lands exact / below / above k (`want`; None: any)"""
+    for _ in range(60):
+        k = rng.randint(klo, khi)
+        c = quotient_class(k, scale)
+        if c is not None and (want is None or c == want):
+            return k
+    for k in range(klo, khi + 1):      # small ranges: look at every index
+        if khi - klo > 2000:
+            break
+        c = quotient_class(k, scale)
+        if c is not None and (want is None or c == want):
+            return k
+    return None
+
+
+def scaled_limits(rng, scale, klo_range, khi_range):
+    """limits k*scale of a scaled datatype, drawn by QUOTIENT CLASS: for decimal scales the float quotient limit/scale
+    lands exactly on, a hair below or a hair above the whole number it stands for - every way of turning it into the
+    integer of the description must give the same index"""
+    want = lambda: rng.choice([None, 'below', 'below', 'above', 'above', 'exact'])
+    klo = grid_index(rng, scale, *klo_range, want())
+    khi = grid_index(rng, scale, *khi_range, want())
+    if klo is None:
+        klo = grid_index(rng, scale, *klo_range) or 0
+    if khi is None:
+        khi = grid_index(rng, scale, *khi_range) or khi_range[1]
+    return klo, khi
+
+
+def regrid_scaled(rng, nodespec):
+    """the scaled datatypes of the generated classes (c04 draws max from 10 / 100 / 2.5 and min = 0): other scales and
+    limits by quotient class (min <= 0 < max stays, so that the generated defaults and valid values remain valid)"""
+    def walk(spec):
+        if spec[0] == 'scaled' and rng.random() < 0.7:
+            scale = rng.choice(SCALES)
+            klo, khi = scaled_limits(rng, scale, (-40, 0) if rng.random() < 0.5 else (0, 0), (1, rng.choice([12, 120, 3000])))
+            spec[1:4] = [scale, klo * scale, khi * scale]
+        elif spec[0] == 'array':
+            walk(spec[1])
+        elif spec[0] == 'tuple':
+            for x in spec[1]:
+                walk(x)
+        elif spec[0] == 'struct':
+            for _, x in spec[1]:
+                walk(x)
+    for ms in nodespec['modules']:
+        for layer in ms['layers']:
+            for p in layer['params']:
+                if 'dt' in p:
+                    walk(p['dt'])
+            for c in layer['commands']:
+                for key in ('arg', 'res'):
+                    if c.get(key):
+                        walk(c[key])
+
+
+def gen_datatype_cfg(rng, dt):
+    """a configuration entry setting datatype properties of a parameter with the given (class-level) datatype spec"""
+    k = dt[0]
+    over = {}
+    if k == 'scaled':
+        scale, lo, hi = dt[1], dt[2], dt[3]
+        klo, khi = int(round(lo / scale)), int(round(hi / scale))
+        which = rng.choice(['max', 'max', 'min', 'both', 'both'])
+        # narrower or wider than the class says, on the grid, by quotient class
+        nlo, nhi = scaled_limits(rng, scale, (klo - 5, min(klo + 3, 0)), (1, khi + 5))
+        if which in ('max', 'both'):
+            over['max'] = nhi * scale
+        if which in ('min', 'both'):
+            over['min'] = nlo * scale
+    elif k in ('floatr', 'float'):
+        lo, hi = (dt[1], dt[2]) if k == 'floatr' else (-100.0, 100.0)
+        which = rng.choice(['max', 'min', 'both'])
+        if which in ('max', 'both'):
+            over['max'] = rng.choice([lo + (hi - lo) / 2, lo + (hi - lo) * 0.3, hi + 0.7, lo + 0.1 * 3])
+        if which in ('min', 'both'):
+            over['min'] = rng.choice([lo - 0.3, lo + (hi - lo) * 0.1, lo])
+        if rng.random() < 0.3:
+            over['absolute_resolution'] = rng.choice([0.0, 0.5, 1e-3])
+    elif k in ('intr', 'int'):
+        lo, hi = (dt[1], dt[2]) if k == 'intr' else (-1000, 1000)
+        which = rng.choice(['max', 'min', 'both'])
+        if which in ('max', 'both'):
+            over['max'] = rng.choice([lo + (hi - lo) // 2, hi + 3, hi - 1])
+        if which in ('min', 'both'):
+            over['min'] = rng.choice([lo - 2, lo + 1, lo])
+    elif k == 'string':
+        over['maxchars'] = rng.choice([(dt[2] or 8) + 2, max(dt[1], 1), 5])
+        if rng.random() < 0.3:
+            over['isUTF8'] = True
+    elif k == 'blob':
+        over['maxbytes'] = rng.choice([dt[2] + 2, max(dt[1], 1), 3])
+    elif k == 'array':
+        over['maxlen'] = rng.choice([dt[3] + 1, max(dt[2], 1), dt[3]])
+        if rng.random() < 0.3:
+            over['minlen'] = rng.choice([0, dt[2], min(dt[2] + 1, over['maxlen'])])
+    if k in ('scaled', 'floatr', 'float', 'intr', 'int') and rng.random() < 0.25:
+        over['unit'] = rng.choice(['K', 'mm/s', '%'])
+    return over
 
 
 def gen_case(seed, big):
@@ -762,7 +870,7 @@ def evaluate(ctx, res, label, case, data, model, judge):
     if judge['bad'] is not None:
         what, idx, name = judge['bad']
         detail = None
-        if what in ('undescribed-reachable', 'flag-not-honoured', 'constant-not-read', 'command-datainfo-not-honoured', 'other'):
+        if what in ('undescribed-reachable', 'flag-not-honoured', 'datainfo-not-honoured', 'constant-not-read', 'command-datainfo-not-honoured', 'other'):
             probes = [s for s in rec['steps'] if s['req'][0] != 'read' or not s['req'][2]]
             st = rec['steps'][idx] if idx < len(rec['steps']) else None
             detail = None if st is None else {'req': st['req'], 'reply': st['obs']['reply'], 'calls': st['obs']['calls'],
